@@ -498,6 +498,15 @@ func (c *Ctx) run() {
 		v := c.evalBool(r.E, env, fmt.Sprintf("requires %d", i))
 		c.asserts = append(c.asserts, v)
 	}
+	for i, r := range c.con.Captured {
+		if fn.Parent() == nil {
+			c.err = fmt.Errorf("contract of %s: captured clause on a function that is not a closure", c.con.Name)
+			return
+		}
+		env := c.baseEnv(st, c.entry)
+		v := c.evalBool(r.E, env, fmt.Sprintf("captured %d", i))
+		c.asserts = append(c.asserts, v)
+	}
 	for i, r := range c.con.Valid {
 		env := c.baseEnv(st, c.entry)
 		v := c.evalBool(r.E, env, fmt.Sprintf("valid %d", i))
